@@ -62,6 +62,9 @@ func SetParseErrorLanguage(lang int) {
 
 // formatFriendlyError 生成友好的错误消息
 func formatFriendlyError(pos position, input []byte, expected []string) error {
+	if verifOn {
+		verifYield(verifSiteFormatErr)
+	}
 	if len(input) == 0 {
 		return fmtErr(pos, input, errMsgs["empty"], 0)
 	}
